@@ -276,7 +276,7 @@ fn from_json(v: &Value) -> Option<HCase> {
 
 fn run(ctx: &Ctx) {
     ctx.shrink_iters.set(20_000);
-    let cases = ctx.share(ctx.tier.pick(480_000, 16_000_000));
+    let cases = ctx.share(ctx.tier.pick(2_400_000, 48_000_000));
     ctx.search("helpers", "helper", cases, hcase(), |c, want_case| {
         let v = check(c);
         if !want_case {
